@@ -1,3 +1,6 @@
+import LK.Proofs.GuardsC14
+import LK.Proofs.CollC15
+import LK.Proofs.EntC17
 import LK.PropsAll
 import LK.Proofs.AttrVec
 import LK.Proofs.Temporal
@@ -235,5 +238,30 @@ example : ∀ j, j < 3 → LK.KNN.dot ([[1, 0], [4 / 5, 3 / 5], [3 / 5, 4 / 5]].
     item 2 (24/25), item 2 keeps item 1 -/
 example : LK.Gen.SimC09.simBlocksT [[1, 0], [4 / 5, 3 / 5], [3 / 5, 4 / 5]] (1 / 10) (some 1) 2 (fun _ => 1)
     = ([0, 1, 2, 3], [1, 2, 1], [4 / 5, 24 / 25, 24 / 25]) := by decide +kernel
+
+/-- C09: the user-user candidates — user 0 asks, users 1 and 2 reach the threshold 1/2 (user 1 exactly), user 3 does not -/
+example : LK.Gen.SimC09.userNbrsT [[1, 0], [1 / 2, 0], [4 / 5, 3 / 5], [1 / 4, 0]] [1, 0] (some 0) (1 / 2) 4 = ([1, 2], [1 / 2, 4 / 5]) := by
+  decide +kernel
+
+/-- C09: one target of the item-item scorer with three stored neighbours: the fast path (limit 3), the slow path (limit 2 keeps the two
+    most similar), and no score below the minimum — also when the neighbourhood exceeds the limit -/
+example : LK.Gen.SimC09.itemScoreT true 1 3 [1, -1, 2] [1 / 2, 1 / 4, 1 / 4] 3 = some (3 / 4) := by decide +kernel
+example : LK.Gen.SimC09.itemScoreT true 1 2 [1, -1, 2] [1 / 2, 1 / 4, 1 / 8] 3 = some (1 / 3) := by decide +kernel
+example : LK.Gen.SimC09.itemScoreT false 5 2 [1, 1, 1] [1 / 2, 1 / 4, 1 / 8] 3 = none := by decide +kernel
+
+/-- C17: two entities are added to a table of two — the table keeps its two rows, the new identifiers follow in sorted order, and the
+    index is the table -/
+example : LK.Gen.EntC17.addEntitiesT (fun (a b : Nat) => decide (a ≤ b)) (some [5, 3]) [9, 1] true = .ok ([5, 3, 1, 9], [5, 3, 1, 9]) := by
+  decide +kernel
+example : LK.Gen.EntC17.addEntitiesT (fun (a b : Nat) => decide (a ≤ b)) (some [5, 3]) [9, 3] true = .error .dataError := by decide +kernel
+example : LK.Gen.EntC17.addEntitiesT (fun (a b : Nat) => decide (a ≤ b)) (some [5, 3]) [9, 3] false = .ok ([5, 3, 9], [5, 3, 9]) := by decide +kernel
+
+/-- C15: five lists written in batches of two come back under their own keys (a duplicate key included) -/
+example : LK.Gen.CollC15.loadParquetT (fun (x : Nat) => x) (LK.Gen.CollC15.saveParquetT (fun (x : Nat) => x) [(1, 10), (2, 20), (1, 30), (4, 40), (5, 50)] 2)
+    = [(1, some 10), (2, some 20), (1, some 30), (4, some 40), (5, some 50)] := by decide +kernel
+
+/-- C14: a scored list with a tag field; a copy without the scores and one with another tag are derived — the source's cell is as it was -/
+example : (LK.ItemListHeap.run true [[("score", 1), ("tag", 2)]] [⟨0, [], ["score"]⟩, ⟨0, [("tag", 7)], []⟩])
+    = [[("score", 1), ("tag", 2)], [("tag", 2)], [("score", 1), ("tag", 7)]] := by decide +kernel
 
 end Translations
